@@ -36,7 +36,7 @@ class Mode:
 
     def __init__(self, name, tocks=True, rets=True, raises=False, kbd=False, enterfail=False,
                  enterdone=False, ext=(), rem=(), kinds=(0, 1, 2, 3, 4), cfg=True, horizon=3,
-                 limits=(None, 2.0, 2.5, 0.3), always=False, stale_done=False, xtocks=False, callcfg=False, tockset=(), handdrive=False):
+                 limits=(None, 2.0, 2.5, 0.3), always=False, stale_done=False, xtocks=False, callcfg=False, tockset=(), handdrive=False, rerun=False):
         self.name = name
         self.tocks, self.rets, self.raises, self.kbd = tocks, rets, raises, kbd
         self.enterfail, self.enterdone = enterfail, enterdone
@@ -47,6 +47,7 @@ class Mode:
         self.xtocks = xtocks
         self.callcfg = callcfg     # limit and start tyme may be given to do()/ado() instead of the constructor
         self.tockset = tuple(tockset)   # with tocks=False: the only yielded tocks offered (multiples of T), e.g. "not due at the stop"
+        self.rerun = rerun              # the same scheduler may be run a second time, without arguments, right after the first run
         self.handdrive = handdrive      # the run may be driven by hand: enter(doers=) / recur(deeds=) / exit(deeds=) on an explicit deque
 
 
@@ -579,7 +580,7 @@ def config(w, ch, shape, sweep=False):
         lims = [x for x in SWEEP_LIMITS if x is not None] if shape_has_always(shape) else SWEEP_LIMITS
         lim = ch.pick(lims, "cfg:limit", cost=0)
         mult = ch.pick([True, False], "cfg:limit-in-tocks", cost=0)
-        via = ch.pick(["ctor", "call"], "cfg:via", cost=0) if m.callcfg else "ctor"
+        via = ch.pick(["ctor", "call"] + (["call+rerun"] if m.rerun else []), "cfg:via", cost=0) if m.callcfg else "ctor"
         return T, start, (lim * T if (lim is not None and mult) else lim), via
     if m.cfg and w.table is None:
         T = ch.pick([1.0, 0.25, 0.1], "cfg:tock")
@@ -588,7 +589,7 @@ def config(w, ch, shape, sweep=False):
         if shape_has_always(shape):
             lims = [x for x in lims if x is not None] or [2.0]
         lim = ch.pick(lims, "cfg:limit")
-        via = ch.pick(["ctor", "call"], "cfg:via") if m.callcfg else (ch.pick(["ctor", "hand"], "cfg:via") if m.handdrive else "ctor")
+        via = ch.pick(["ctor", "call"] + (["call+rerun"] if m.rerun else []), "cfg:via") if m.callcfg else (ch.pick(["ctor", "hand"], "cfg:via") if m.handdrive else "ctor")
     else:
         T, start, lim = 1.0, 0.0, (2.0 if shape_has_always(shape) else None)
         via = "ctor"
@@ -624,12 +625,14 @@ def run(job, ch, mode=None, table=None, cfg=None, kinds=None, runner=None):
             node = w.nodes.get(n)
             if node is not None and w.kind.get(n) != "D":
                 node.basetock = ch.pick([0.0, 0.5 * T, 0.1, 2 * T] + ([1.5 * T] if w.mode.xtocks else []), "basetock:" + n)
-    if via == "call":     # constructor holds other (stale) values; the run's limit and start tyme are given to do()/ado()
+    if via in ("call", "call+rerun"):     # constructor holds other (stale) values; the run's limit and start tyme are given to do()/ado()
         d = LoggedDoist(w, tock=T, real=False, limit=(None if lim is None else lim + 3 * T), doers=doers, tyme=start + 3 * T + 0.5)
         w.call_kwargs = dict(limit=lim, tyme=start)
+        w.second_run = (via == "call+rerun")   # then once more without arguments: what the first call stored is what counts
     else:
         d = LoggedDoist(w, tock=T, real=False, limit=lim, doers=doers, tyme=start)
         w.call_kwargs = {}
+        w.second_run = False
     w.doist = d
     w.result = None
     if w.mode.stale_done:
@@ -642,6 +645,9 @@ def run(job, ch, mode=None, table=None, cfg=None, kinds=None, runner=None):
                 hand_drive(w, d, doers, lim)
             else:
                 d.do(**w.call_kwargs)
+                if w.second_run:
+                    w.log("#", "second-run")
+                    d.do()
             w.log("#", "do_return")
             w.end = len(w.trace)  # events after this index happened after do() returned/raised
             w.result = "return"
